@@ -58,6 +58,8 @@ def alphabet():
     d["prune_states"] = True
     # malformed: no final state (the ValueError comes from a built-in, not from an explicit check)
     nf = dict(rewards=[0, 0], players=[PR, PR], transition_list=[[(1, 1)], [(1, 1)]], final_states=[])
+    # non-ASCII action names (the reader must decode the file as it was written: UTF-8)
+    x["transition_list"][0] = [("\u03b1_1", 1), ("\u00f1b", 2)]
     return [("g", g), ("x", x), ("game_a", game_a), ("d_p1", d), ("lp", lp), ("x_no_prune", u1), ("g_1", u2), ("m_1", m1), ("b2", m2), ("nf", nf)]
 
 
